@@ -179,8 +179,24 @@ def pmap(fn, items, workers=None):
         return [fn(it) for it in items]
     ctx = multiprocessing.get_context("fork")
     chunk = max(1, len(items) // (workers * 8))
-    with ctx.Pool(workers) as pool:
-        return pool.map(fn, items, chunksize=chunk)
+    # a worker that dies (or lets a BaseException such as the wall-clock watchdog's escape) must end the check with a
+    # harness error, never leave it waiting for ever: ProcessPoolExecutor notices dead workers, _guarded catches the rest
+    import concurrent.futures
+    import functools
+    with concurrent.futures.ProcessPoolExecutor(workers, mp_context=ctx) as pool:
+        out = list(pool.map(functools.partial(_guarded, fn), items, chunksize=chunk))
+    for tag, val in out:
+        if tag != "ok":
+            raise RuntimeError("worker failed: " + val)
+    return [val for _, val in out]
+
+
+def _guarded(fn, item):
+    try:
+        return "ok", fn(item)
+    except BaseException as exc:       # noqa - incl. KeyboardInterrupt subclasses raised by watchdogs
+        import traceback
+        return "error", "".join(traceback.format_exception(type(exc), exc, exc.__traceback__))[-2000:]
 
 
 def merge_all(parts):
